@@ -55,3 +55,54 @@ Example C01_example :
   enforce_ex_str doc_priority on [NoMatch; Match EOther; Match EDeny; Match EAllow] false
   = Ok (false, Some 2).
 Proof. vm_compute. reflexivity. Qed.
+
+(* ---------------------------------------------------------------------------------------------------------------
+   The same statements about the SOURCE: the decision kernel of CoreEnforcer.enforce_ex (casbin/core_enforcer.py) is
+   re-translated on every run into a program of the language of EnfLang.v (coq/gen/EnforceGen.v; how the matcher is built
+   and evaluated, effector selection and logging are abstracted - the matcher's value per rule is an input);
+   EnforceSrcTie.v proves by symbolic execution, for every effector triple, configuration and list of rules, that the
+   interpreter run on the regenerated kernel computes Enforce.enforce_ex on the outcome list [map out_of rules]. *)
+From PyCasbin Require EnfLang EnforceSrcTie.
+From PyCasbinGen Require EnforceGen.
+
+Theorem C01_source_kernel_is_model : forall im fi tb en ar he rules er, (he = false \/ rules <> []) ->
+  EnfLang.erun im fi tb (EnforceSrcTie.mkenv en ar he rules er) EnforceSrcTie.EFUEL EnforceGen.enforce_kernel_locals
+    EnforceGen.enforce_kernel_gen =
+  enforce_ex im fi tb {| enabled := en; arity_ok := ar |} (map EnforceSrcTie.out_of rules) (EnforceSrcTie.truthy er).
+Proof. exact EnforceSrcTie.kernel_is_model. Qed.
+Print Assumptions C01_source_kernel_is_model.
+
+Theorem C01_source_decision_is_spec : forall s e, In (s, e) documented ->
+  forall he rules er, rules <> [] ->
+  EnforceSrcTie.src_enforce_ex s true true he rules er =
+  match error_before_decision e (map EnforceSrcTie.out_of rules) with
+  | Some c => Err c
+  | None => Ok (spec_decision e (map EnforceSrcTie.out_of rules), spec_explain e (map EnforceSrcTie.out_of rules))
+  end.
+Proof. exact EnforceSrcTie.src_decision_is_spec. Qed.
+Print Assumptions C01_source_decision_is_spec.
+
+Theorem C01_source_empty_policy : forall s e, In (s, e) documented -> forall er,
+  EnforceSrcTie.src_enforce_ex s true true false [] er =
+  Ok (match e with DO => true | _ => EnforceSrcTie.truthy er end, None).
+Proof. exact EnforceSrcTie.src_empty_policy. Qed.
+Print Assumptions C01_source_empty_policy.
+
+Theorem C01_source_disabled_allows : forall s e, In (s, e) documented -> forall ar he rules er,
+  (he = false \/ rules <> []) -> EnforceSrcTie.src_enforce_ex s false ar he rules er = Ok (true, None).
+Proof. exact EnforceSrcTie.src_disabled_allows. Qed.
+Print Assumptions C01_source_disabled_allows.
+
+Theorem C01_source_arity_raises : forall s e, In (s, e) documented -> forall he rules er,
+  (he = false \/ rules <> []) -> EnforceSrcTie.src_enforce_ex s true false he rules er = Err EArity.
+Proof. exact EnforceSrcTie.src_arity_raises. Qed.
+Print Assumptions C01_source_arity_raises.
+
+Example C01_source_example :
+  EnforceSrcTie.src_enforce_ex EffectorsGen.PRIORITY_EFFECT true true false
+    [ {| EnfLang.rr_size_ok := true; EnfLang.rr_res := EnfLang.RBool false; EnfLang.rr_eft := Some EAllow |};
+      {| EnfLang.rr_size_ok := true; EnfLang.rr_res := EnfLang.RBool true; EnfLang.rr_eft := Some EOther |};
+      {| EnfLang.rr_size_ok := true; EnfLang.rr_res := EnfLang.RFloat true; EnfLang.rr_eft := Some EDeny |};
+      {| EnfLang.rr_size_ok := true; EnfLang.rr_res := EnfLang.RBool true; EnfLang.rr_eft := Some EAllow |} ]
+    (EnfLang.RBool false) = Ok (false, Some 2%nat).
+Proof. exact EnforceSrcTie.src_kernel_example. Qed.
